@@ -73,6 +73,14 @@ static inline void maybe_fail() {
 }
 }  // namespace ledger
 
+// ThreadSanitizer's runtime defines the allocation functions itself (they cannot be replaced at link time); in that build
+// the ledger is inert (all counters stay zero) and the allocation oracles are carried by the ASan build only.
+#if defined(__has_feature)
+#if __has_feature(thread_sanitizer)
+#define LEDGER_INERT 1
+#endif
+#endif
+#ifndef LEDGER_INERT
 void* operator new[](size_t sz) {
   ledger::maybe_fail();
   void* p = malloc(sz ? sz : 1);
@@ -96,3 +104,4 @@ void* operator new(size_t sz) {
 void operator delete(void* p) noexcept { free(p); }
 void operator delete(void* p, size_t) noexcept { free(p); }
 #endif
+#endif  // LEDGER_INERT
